@@ -51,6 +51,7 @@ const (
 	SCreate                  // CREATE(value, init) [+ calls of the created account]
 	SCreate2                 // CREATE2(value, init, salt) [+ calls of the created account]
 	SStore                   // SSTORE(slot N, value V) with N in 0..3, V in {0, 0, 1, 2}
+	SProbe                   // BALANCE / EXTCODESIZE / EXTCODEHASH / EXTCODECOPY of Target, result stored (V=0) or logged (V=1)
 	SBlockHash               // BLOCKHASH(NUMBER - N), N in 1..3, stored to slot 8+N (V=0) or logged as LOG0 data (V=1)
 )
 
@@ -64,7 +65,7 @@ type Step struct {
 	Benef  common.Address // beneficiary inside the child (BenefSelf: the child itself)
 	BSelf  bool
 	Salt   byte
-	N, V   byte // SStore: slot and value; SBlockHash: distance
+	N, V   byte // SStore: slot and value; SBlockHash: distance and sink; SProbe: opcode index and sink
 	// After a create: call the new account (runs its runtime: e.g. self-destructs it
 	// in the transaction that created it) and/or pay it afterwards.
 	CallChild bool
@@ -80,6 +81,8 @@ const (
 	TInvalid
 	TSelfDestruct
 )
+
+var probeOps = []byte{ep.BALANCE, ep.EXTCODESIZE, ep.EXTCODEHASH, ep.EXTCODECOPY}
 
 var termNames = []string{"stop", "revert", "invalid", "selfdestruct"}
 
@@ -125,7 +128,7 @@ func DrawScenario(rt *rapid.T, push0 bool, pool []common.Address, asInit bool) *
 	n := 1 + pickW(rt, "sc-steps", []int{4, 4, 2, 1})
 	for i := 0; i < n; i++ {
 		var st Step
-		switch pickW(rt, "sc-kind", []int{10, 6, 2, 3, 2}) {
+		switch pickW(rt, "sc-kind", []int{10, 6, 2, 5, 2, 3}) {
 		case 0:
 			st.Kind = SCall
 			st.Target, st.Self = drawAddr(rt, "sc-target", pool)
@@ -139,6 +142,11 @@ func DrawScenario(rt *rapid.T, push0 bool, pool []common.Address, asInit bool) *
 			st.Kind = SStore
 			st.N = byte(ep.Uniform(rt, "sc-slot", 4))
 			st.V = []byte{0, 0, 1, 2}[ep.Uniform(rt, "sc-slot-value", 4)]
+		case 5:
+			st.Kind = SProbe
+			st.Target, st.Self = drawAddr(rt, "sc-probe-target", pool)
+			st.N = byte(ep.Uniform(rt, "sc-probe-op", len(probeOps)))
+			st.V = byte(ep.Uniform(rt, "sc-probe-sink", 2))
 		default:
 			st.Kind = SBlockHash
 			st.N = byte(1 + pickW(rt, "sc-blockhash-distance", []int{1, 2, 2}))
@@ -240,6 +248,21 @@ func (s *Scenario) Code() []byte {
 			a.Op(ep.CALL, ep.POP)
 		case SStore:
 			a.PushU(uint64(st.V)).PushU(uint64(st.N)).Op(ep.SSTORE)
+		case SProbe:
+			op := probeOps[st.N]
+			if op == ep.EXTCODECOPY { // copy 32 code bytes to memory 0, then load them
+				a.PushU(32).PushU(0).PushU(0)
+				emitAddr(a, st.Target, st.Self)
+				a.Op(ep.EXTCODECOPY).PushU(0).Op(ep.MLOAD)
+			} else {
+				emitAddr(a, st.Target, st.Self)
+				a.Op(op)
+			}
+			if st.V == 0 {
+				a.PushU(12).Op(ep.SSTORE)
+			} else {
+				a.PushU(0).Op(ep.MSTORE).PushU(32).PushU(0).Op(ep.LOG0)
+			}
 		case SBlockHash:
 			a.PushU(uint64(st.N)).Op(ep.NUMBER, ep.SUB, ep.BLOCKHASH)
 			if st.V == 0 {
@@ -308,6 +331,8 @@ func (s *Scenario) Describe() string {
 			parts = append(parts, fmt.Sprintf("call(%s,%s)", name(st.Target, st.Self), valueNames[st.Value]))
 		case SStore:
 			parts = append(parts, fmt.Sprintf("sstore(%d,%d)", st.N, st.V))
+		case SProbe:
+			parts = append(parts, fmt.Sprintf("%s(%s)->%s", ep.OpName(probeOps[st.N]), name(st.Target, st.Self), []string{"sstore", "log"}[st.V]))
 		case SBlockHash:
 			parts = append(parts, fmt.Sprintf("blockhash(-%d)->%s", st.N, []string{"sstore", "log"}[st.V]))
 		default:
